@@ -54,6 +54,52 @@ pub(super) fn err_code(t: &VmGreenThread) -> u8 {
     }
 }
 
+// Under Kani the enum is repr(u16): a union of repr(C) structs that start with the u16 tag.
+// Variants with two u16 operands leave two padding bytes, which CBMC treats as nondeterministic;
+// measured: with such an instruction the fetch is not constant-folded, the Top flag of the
+// destination register stays symbolic and propositional reduction needs > 60 GB.  Rebuilding
+// the instruction from its tag and operands with the padding defined makes it a constant again.
+pub(super) fn from_words(template: &Instr, w1: u16, w2: u16, w3: u16) -> Instr {
+    unsafe {
+        let tag: u16 = *(template as *const Instr as *const u16);
+        let words: [u16; 4] = [tag, w1, w2, w3];
+        std::ptr::read(&words as *const [u16; 4] as *const Instr)
+    }
+}
+pub(super) fn lo(x: u32) -> u16 { x as u16 }
+pub(super) fn hi(x: u32) -> u16 { (x >> 16) as u16 }
+
+// Rebuilds an instruction from its tag and operand words with all padding bytes defined
+// (repr(u16) layout: tag at 0, u16 operands at 2/4/6, a u32 operand at 4).
+pub(super) fn norm(i: Instr) -> Instr {
+    match i {
+        // no operands
+        Instr::Pop | Instr::Duplicate | Instr::ReturnVoid | Instr::Stop | Instr::Panic | Instr::ConstructChannel
+        | Instr::DeconstructStruct | Instr::DeconstructArray | Instr::DeconstructVariant | Instr::ChannelRead
+        | Instr::ChannelWrite => from_words(&i, 0, 0, 0),
+        // one 16-bit operand
+        Instr::LoadOffset(n) | Instr::StoreOffset(n) => from_words(&i, n as u16, 0, 0),
+        Instr::PushNil(n) | Instr::HostFunc(n) | Instr::ConstructStruct(n) | Instr::ConstructArray(n) | Instr::MakeClosure(n) => from_words(&i, n, 0, 0),
+        Instr::ConstructVariant { tag } => from_words(&i, tag, 0, 0),
+        Instr::PushBool(b) => from_words(&i, b as u16, 0, 0),
+        // one 32-bit operand (at offset 4)
+        Instr::PushInt(n) | Instr::PushFloat(n) | Instr::PushString(n) | Instr::CallFuncObj(n) | Instr::CallForeign(n) | Instr::Return(n) => from_words(&i, 0, lo(n), hi(n)),
+        Instr::PushAddr(pc) | Instr::Jump(pc) | Instr::JumpIf(pc) | Instr::JumpIfFalse(pc) => from_words(&i, 0, lo(pc.0), hi(pc.0)),
+        Instr::Call(cd) => from_words(&i, 0, lo(cd.0), hi(cd.0)),
+        Instr::SpawnTask(n, pc) => from_words(&i, n, lo(pc.0), hi(pc.0)),
+        // two 16-bit operands
+        Instr::StoreOffsetImm(n, imm) => from_words(&i, n as u16, imm, 0),
+        Instr::Ceil(a, b) | Instr::Floor(a, b) | Instr::Round(a, b) | Instr::SquareRoot(a, b) | Instr::Sin(a, b) | Instr::Cos(a, b)
+        | Instr::Tan(a, b) | Instr::Asin(a, b) | Instr::Acos(a, b) | Instr::Atan(a, b) | Instr::Log(a, b) | Instr::Log2(a, b)
+        | Instr::Log10(a, b) | Instr::Not(a, b) | Instr::GetField(a, b) | Instr::SetField(a, b) | Instr::GetIndex(a, b)
+        | Instr::SetIndex(a, b) | Instr::ArrayPush(a, b) | Instr::ArrayPushIntImm(a, b) | Instr::ArrayLength(a, b) | Instr::ArrayPop(a, b)
+        | Instr::StringCountBytes(a, b) | Instr::FloatFromInt(a, b) | Instr::IntFromFloat(a, b) | Instr::StringFromInt(a, b)
+        | Instr::StringFromFloat(a, b) => from_words(&i, a, b, 0),
+        // three 16-bit operands: no padding
+        other => other,
+    }
+}
+
 pub(super) fn mk_shared(
     program: Vec<Instr>,
     int_constants: Vec<AbraInt>,
